@@ -566,7 +566,8 @@ func TestRegressC19Ann(t *testing.T) { regress(t, "C19Ann", runC19Ann) }
 
 // FuzzC19: JSON bytes of a built-in StatefulSet under the native fuzzer; anything that decodes must round-trip.
 // hugeExponent: a number with an exponent of three or more digits (resource.Quantity computes 10^n with math/big)
-var hugeExponent = regexp.MustCompile(`[0-9.][eE][+-]?[0-9]{3,}`)
+// (no mantissa digit is needed in front of the E: "E00701777777777" sends the parser the same way)
+var hugeExponent = regexp.MustCompile(`[eE][+-]?[0-9]{3,}`)
 
 func FuzzC19(f *testing.F) {
 	f.Add([]byte(`{"apiVersion":"apps/v1","kind":"StatefulSet","metadata":{"name":"web","labels":{},"annotations":{"delete-slots":"[1]"}},"spec":{"replicas":3,"selector":{"matchLabels":{"app":"web"}},"serviceName":"svc","template":{"metadata":{"labels":{"app":"web"}},"spec":{"containers":[{"name":"c","image":"i","resources":{"limits":{"cpu":"1000m"}},"ports":[{"containerPort":80}]}],"volumes":[{"name":"v","emptyDir":{}}]}},"volumeClaimTemplates":[{"metadata":{"name":"data"},"spec":{"resources":{"requests":{"storage":"1Gi"}}}}],"updateStrategy":{"type":"RollingUpdate","rollingUpdate":{"partition":1}}},"status":{"replicas":1,"collisionCount":0}}`))
@@ -579,6 +580,7 @@ func FuzzC19(f *testing.F) {
 	// found by this fuzzer: a quantity with an astronomic exponent sends apimachinery's own parser/canonicaliser into
 	// minutes of math/big arithmetic (a worker "hung"): nothing of this repository is involved, such inputs are skipped
 	f.Add([]byte(`{"spec":{"template":{"spec":{"containers":[{"resources":{"limits":{"":"1000E7777777777"}}}]}}}}`))
+	f.Add([]byte(`{"spec":{"template":{"spec":{"containers":[{"resources":{"limits":{"":"E00701777777777"}}}]}}}}`))
 	r := rec("C19")
 	f.Fuzz(func(t *testing.T, data []byte) {
 		if hugeExponent.Match(data) {
